@@ -167,7 +167,7 @@ def u_setcap(ctx, index):
   ctx.check('C20/setCapacityAndFillRate/new_burst', o['_tokens'] <= nc)
   ctx.check('C20/setCapacityAndFillRate/potential_le_2newcap',
             potential(o['_tokens'], o['timestamp'], nc, nr, s.clock.now) <= 2 * nc)
-  ctx.check('C20/setCapacityAndFillRate/timestamp_kept', o['timestamp'] == s.ts0)
+  ctx.check('aux/setCapacityAndFillRate/timestamp_kept', o['timestamp'] == s.ts0)
 
 
 def u_lemma_window(ctx, index):
